@@ -257,6 +257,13 @@ pub fn c18(a: &Analysis) -> Vec<Violation> {
                         let ind = t.at_src.finished().into_iter().find(|(i, _)| i.seq > r.seq);
                         match ind {
                             Some((_, f)) => {
+                                if f.filestore_responses != pf.filestore_response {
+                                    out.push(v(
+                                        "C18",
+                                        "sender_report_differs_from_finished_pdu",
+                                        format!("txn {:?}: the Finished PDU delivered at seq {} carries {} filestore response(s), the sender's indication {}", t.key, r.seq, pf.filestore_response.len(), f.filestore_responses.len()),
+                                    ));
+                                }
                                 if f.report.condition != pf.condition || f.delivery_code != pf.delivery_code || f.file_status != pf.file_status {
                                     out.push(v(
                                         "C18",
